@@ -1635,6 +1635,25 @@ write_gvar_data(Relocation *cur, Initializer *init, Type *ty, char *buf, int off
     return cur;
   }
 
+  // A struct or union initialized by an expression of its type: only
+  // a compound literal at file scope has a value known here.
+  if ((ty->kind == TY_STRUCT || ty->kind == TY_UNION) && init->expr) {
+    Node *expr = init->expr;
+    if (expr->kind != ND_VAR || expr->var->is_local || !expr->var->init_data ||
+        strncmp(expr->var->name, ".L..", 4))
+      error_tok(expr->tok, "not a compile-time constant");
+
+    memcpy(buf + offset, expr->var->init_data, ty->size);
+    for (Relocation *r = expr->var->rel; r; r = r->next) {
+      Relocation *rel = calloc(1, sizeof(Relocation));
+      *rel = *r;
+      rel->offset += offset;
+      rel->next = NULL;
+      cur = cur->next = rel;
+    }
+    return cur;
+  }
+
   if (ty->kind == TY_STRUCT) {
     for (Member *mem = ty->members; mem; mem = mem->next) {
       if (mem->is_bitfield) {
